@@ -1161,7 +1161,10 @@ _C18_CASINGS = ('upper', 'lower', 'capitalize', 'mixed')
 _C18_CTE_DEFS = (' x AS (select 1) ', ' x AS (select 1), y AS (select 2) ', ' x (a, b) AS (select 1, 2) ',
                  ' RECURSIVE x AS (select 1 union all select 2) ', '\nx\nAS\n(select 1)\n', ' "x" AS (select 1) ',
                  ' x AS (select 1)', ' /* c */ x AS (select 1) /* d */ ', ' x AS MATERIALIZED (select 1) ',
-                 ' x AS (with y as (select 1) select * from y) ', ' x as (select 1) , y as (select 2)\n')
+                 ' x AS (with y as (select 1) select * from y) ', ' x as (select 1) , y as (select 2)\n',
+                 # comments between the CTE definitions and the main keyword (own line, end of line, several)
+                 ' x AS (select 1)\n-- main\n', ' x AS (select 1) -- c\n', ' x AS (select 1)\n/* main */\n',
+                 ' x AS (select 1), y AS (select 2)\n-- c\n-- d\n', ' x AS (select 1)\r\n-- c\r\n')
 _C18_CTE_NEXT = (('SELECT', ' * from x'), ('SELECT', ' 1'), ('SELECT', '\n1'), ('INSERT', ' into t select * from x'),
                  ('UPDATE', ' t set a = 1'), ('DELETE', ' from t'), ('MERGE', ' into t using x on 1 = 1'), ('foo', ' bar'),
                  ('VALUES', ' (1)'))
